@@ -25,14 +25,15 @@ type Obligation struct {
 
 // Report collects the obligations of one property run.
 type Report struct {
-	E        *Engine
-	Property string
-	Obls     []Obligation
-	Info     []string
-	minCount map[string]int
-	keys     map[string]int
-	Funcs    map[string]bool // functions analysed
-	Sites    int             // call sites inspected
+	E          *Engine
+	Property   string
+	Obls       []Obligation
+	Info       []string
+	minCount   map[string]int
+	keys       map[string]int
+	Funcs      map[string]bool // functions analysed
+	Sites      int             // call sites inspected
+	Supporting []string        // supporting rules run (support.go)
 }
 
 func newReport(e *Engine, prop string) *Report {
@@ -235,6 +236,7 @@ func (r *Report) finish(meta runMeta) int {
 	}
 	cov := map[string]any{
 		"explanation":        meta.Explanation,
+		"supporting_rules":   supportingNote(r),
 		"obligations":        len(r.Obls),
 		"discharged":         discharged,
 		"known_findings":     len(knownHits),
@@ -301,4 +303,15 @@ func joinNonEmpty(parts ...string) string {
 		}
 	}
 	return strings.Join(out, "; ")
+}
+
+// supportingNote: the rules run for this property on behalf of the mechanisms
+// it depends on (tool/support.go), as opposed to its own rules.
+func supportingNote(r *Report) map[string]any {
+	names := append([]string{}, r.Supporting...)
+	sort.Strings(names)
+	return map[string]any{
+		"rules": names,
+		"why":   "each is a necessary condition of this property as well: an open store always runs the flusher and both collectors behind every call, reopen reads what Close/flush wrote, the adapter sits on the store; see the owning property's section in DESIGN.md for what the rule decides",
+	}
 }
